@@ -22,7 +22,10 @@ RULE = ("absolute URLs built with URL.build from decoded components: user, passw
 TEXTS = [t for t in gens.TEXTS if "\ud800" not in t] + [
     "a%2Fb", "%2F", "%25", "100%", "a+b c", "k&v=w;x", "é/ü", "\U0001f600", "#?[]@:!$&'()*+,;=", "a\\b", "\x7f", "\xad", "​", "‮",
     "\xa0", " ", "é", "", "\U0010ffff", "\x85", "dom/joe​", "a:b@c", "[x]", "a?b#c", "ｆｕｌｌ", "a／b", "℀", "Ⅷ", "ß", "İ"]
-HOSTS = ["example.com", "bücher.example", "例え.テスト", "xn--bcher-kva.example", "127.0.0.1", "::1", "2001:db8::1", "fe80::1%eth0", "h"]
+HOSTS = ["example.com", "bücher.example", "例え.テスト", "xn--bcher-kva.example", "127.0.0.1", "::1", "2001:db8::1", "fe80::1%eth0", "h",
+         # IDN labels whose decoded form holds characters that are not printable for str.isprintable(): the joiners that IDNA 2008
+         # CONTEXTJ admits (ZWNJ after a Persian letter, ZWJ after a virama) - the host is shown decoded, never escaped
+         "\u0646\u0627\u0645\u0647\u200c\u0627\u06cc.com", "\u0915\u094d\u200d\u0937.com", "xn--mgba3gch31f060k.com", "xn--11b2ezcw70k.com"]
 
 
 def run(ctx):
